@@ -67,6 +67,22 @@ def stepMt (st : DState) : List String → DState × String
     match st.mt[n]? with
     | some t => let t' := t.reset f64Max; ({ st with mt := st.mt.insert n t' }, dumpTracker t')
     | none => (st, "bad-op")
+  -- compact forms for large m: the maximum only / the whole tracker on request
+  | ["updq", n, k, v] =>
+    match st.mt[n]?, k.toNat?, f64OfHex v with
+    | some t, some k, some v =>
+      match t.update k v with
+      | .ok t' => ({ st with mt := st.mt.insert n t' }, match t'.getMax with | .ok v => f64Hex v | .error e => errWord e)
+      | .error e => (st, errWord e)
+    | _, _, _ => (st, "bad-op")
+  | ["resetq", n] =>
+    match st.mt[n]? with
+    | some t => ({ st with mt := st.mt.insert n (t.reset f64Max) }, "ok")
+    | none => (st, "bad-op")
+  | ["dump", n] =>
+    match st.mt[n]? with
+    | some t => (st, dumpTracker t)
+    | none => (st, "bad-op")
   | ["max", n] =>
     match st.mt[n]? with
     | some t => (st, match t.getMax with | .ok v => f64Hex v | .error e => errWord e)
@@ -138,6 +154,18 @@ def stepFy (st : DState) : List String → DState × String
     | _, _ => (st, "bad-op")
   | ["reset", n] => match st.fy[n]? with
     | some s => let s' := s.reset; ({ st with fy := st.fy.insert n s' }, dumpNats s'.v)
+    | none => (st, "bad-op")
+  -- compact forms for large m: the drawn index only / the values on request
+  | ["nextk", n, u] => match st.fy[n]?, u64OfHex u with
+    | some s, some u => (match s.nextU64 u with
+      | .ok (k, s') => ({ st with fy := st.fy.insert n s' }, toString k)
+      | .error e => (st, errWord e))
+    | _, _ => (st, "bad-op")
+  | ["resetq", n] => match st.fy[n]? with
+    | some s => ({ st with fy := st.fy.insert n s.reset }, "ok")
+    | none => (st, "bad-op")
+  | ["values", n] => match st.fy[n]? with
+    | some s => (st, dumpNats s.v)
     | none => (st, "bad-op")
   | ["topoffsets", n] => match n.toNat? with
     | some n => (st, toString (topOffsets n))
